@@ -102,6 +102,9 @@ Scenarios ==
     \cup [kind : {"stat"}, stat : {"king", "r0", "r1", "f2", "fst", "pi_xy"}, shape : {<<1, 9>>, <<9, 1>>, <<3, 3>>, <<9>>, <<3, 3, 1>>, <<1, 3, 3>>, <<3, 4>>, <<4, 3>>}]
     \* empty spectra whose zero-length axis is not the last one, next to absurdly long axes: every tool and option on them
     \cup [kind : {"shapeop"}, shape : AbsurdShapes, format : {"text", "npy"}, op : ShapeOps]
+    \* an npy header that cannot be parsed and holds a two-byte character at byte offset k (version 3.0 headers are UTF-8): whatever
+    \* is quoted, cut or padded in the diagnostic, no offset may matter
+    \cup [kind : {"npyjunk"}, k : 0..130, version : {1, 2, 3}]
     \* axis lists that are wrong whatever the spectrum holds - a duplicate, an axis that does not exist, every axis - on EMPTY
     \* spectra as well as on ordinary ones: the request is refused before anything is computed
     \cup [kind : {"badaxes"}, shape : {"0/3", "2/0/3", "3/0", "0/0", "3/4", "2/3/2"}, format : {"text", "npy"},
@@ -131,6 +134,7 @@ Expect(s) ==
     CASE s.kind = "stat" -> StatDomain(s.stat, s.shape)
       [] s.kind = "manypops" -> IF s.project = "tiny" THEN "ok" ELSE "err"
       [] s.kind = "badaxes" -> "err"
+      [] s.kind = "npyjunk" -> "err"
       [] s.kind = "threads" -> "ok"            \* any --threads value behaves like any other (C12)
       [] OTHER -> "ok_or_err"
 
